@@ -251,14 +251,25 @@ theorem RSet.insert_spec {k : Key} {rs : RSet} {t : RType} {record : Rec}
   by_cases hc : rs.rtype = .cname ∨ rs.rtype = .aname
   · have hlen := hcn hc
     have hlen' : ¬ rs.records.length > 1 := by omega
-    simp only [hc, ↓reduceIte, hlen', ZR.bind_ok]
-    simp only [toReplace, List.length_nil, List.range_zero, List.filter_nil, replaceLoop, ZR.bind_ok]
-    refine ⟨NoPanic.ok _, ?_⟩
-    intro rs' h
-    simp at h
-    subst h
-    exact ⟨hk', hfq, hst, fun _ => by simp⟩
-  · simp only [hc, ↓reduceIte, ZR.bind_ok]
+    simp only [hc, true_and, ↓reduceIte, hlen', ZR.bind_ok]
+    generalize sameFirst rs.records record = same
+    by_cases hsm : same = true
+    · simp only [hsm, hlen, and_self, ↓reduceIte]
+      refine ⟨NoPanic.ok _, ?_⟩
+      intro rs' h
+      simp only [ZR.ok.injEq] at h
+      subst h
+      exact ⟨hk', hfq, hst, hcn⟩
+    · have hsm' : same = false := by simpa using hsm
+      subst hsm'
+      simp only [Bool.false_eq_true, and_false, ↓reduceIte]
+      simp only [toReplace, List.length_nil, List.range_zero, List.filter_nil, replaceLoop, ZR.bind_ok]
+      refine ⟨NoPanic.ok _, ?_⟩
+      intro rs' h
+      simp at h
+      subst h
+      exact ⟨hk', hfq, hst, fun _ => by simp⟩
+  · simp only [hc, false_and, ↓reduceIte, ZR.bind_ok]
     have hnp := replaceLoop_spec record (toReplace rs.records record.data) rs.records rs.ttl false
       (toReplace_lt _ _)
     constructor
